@@ -3,6 +3,7 @@
 cd "$(dirname "$0")/.." || exit 2
 PATCH=$(realpath "$1"); shift
 git -C /repo diff --quiet || { echo "/repo working tree not clean"; exit 2; }
+SAVE=$(mktemp -d /tmp/verif-evid.XXXXXX); cp -r evidence "$SAVE"/
 git -C /repo apply "$PATCH" || { echo "patch does not apply"; exit 2; }
 for p in "$@"; do
   out=$(./check $p ${TIER:-quick} 2>&1); rc=$?
@@ -10,3 +11,5 @@ for p in "$@"; do
   echo "$out" | grep "^VIOLATION" | head -3
 done
 git -C /repo checkout -- . ; /venv/bin/python harness/extract.py > /dev/null
+# evidence/replays written while a seeded change was applied do not describe /repo: restore
+rm -rf evidence; cp -r "$SAVE"/evidence . ; rm -rf "$SAVE"
